@@ -37,6 +37,7 @@ LONG = "L" * 300  # longer than NAME_MAX (255) on every common file system
 # symbolic tokens -> concrete component (ABS is filled per sandbox)
 TOK_ABS = "<ABS_OUTSIDE>"
 TOK_LONG = "<LONG300>"
+TOK_ABS_BS = "<ABS_OUTSIDE_WITH_BACKSLASHES>"  # the same absolute path spelled with "\\" for "/"
 
 ALPHABET: list[str] = [
     "", ".", "..", "/", "\\", "a", "a.liquid", "sub", "b", "link_out", "dirlink_out", "secret",
@@ -45,6 +46,25 @@ ALPHABET: list[str] = [
 ]
 # the eight components that decide where a path points (used for the length-4 layer of quick)
 SIGNIFICANT: list[str] = ["", ".", "..", "sub", "dirlink_out", "link_out", "secret", TOK_ABS]
+# Separator layer: names whose components are joined by "\\" or by a mix of "/" and "\\" (Windows
+# spelling of a path: the quantifier's "names built from path separators").  Components: the
+# path-significant ones plus the absolute prefix spelled with backslashes.
+SEP_COMPONENTS: list[str] = SIGNIFICANT + [TOK_ABS_BS]
+SEPARATORS = ("/", "\\")
+
+
+def join_sym(toks: Iterable[str], seps: Optional[str] = None) -> str:
+    """Symbolic name: tokens joined by ``seps[i]`` (all "/" when seps is None)."""
+    toks = list(toks)
+    if not toks:
+        return ""
+    out = [toks[0]]
+    for i, t in enumerate(toks[1:]):
+        out.append(seps[i] if seps else "/")
+        out.append(t)
+    return "".join(out)
+
+
 # components that are ordinary file / directory names (docs clause "a file that exists is found")
 PLAIN = {"a", "a.liquid", "sub", "b", "secret", "link_in"}
 
@@ -149,12 +169,14 @@ class Sandbox:
     def component(self, tok: str) -> str:
         if tok == TOK_ABS:
             return self.outside
+        if tok == TOK_ABS_BS:
+            return self.outside.replace("/", "\\")
         if tok == TOK_LONG:
             return LONG
         return tok
 
-    def name(self, toks: Iterable[str]) -> str:
-        return "/".join(self.component(t) for t in toks)
+    def name(self, toks: Iterable[str], seps: Optional[str] = None) -> str:
+        return join_sym([self.component(t) for t in toks], seps)
 
     # -- oracle tables -------------------------------------------------------------------
     def lexical_reach(self, base: str) -> frozenset[str]:
@@ -186,13 +208,18 @@ class Sandbox:
         components textually.  Deliberately generous (a superset of what any sane
         resolution accepts) because it only *permits* outcomes.
         """
-        if "\x00" in name or os.path.isabs(name):
+        if "\x00" in name:
             return False
+        # A backslash may be an ordinary character or (Windows spelling) a separator: the name
+        # must stay relative and below the base under BOTH readings.
+        readings = {name, name.replace("\\", "/")}
         for b in bases:
             b = os.path.normpath(b)
             for e in exts:
-                cand = os.path.normpath(os.path.join(b, name + (e or "")))
-                if cand.startswith(b + os.sep):
+                if all(
+                    not os.path.isabs(r) and os.path.normpath(os.path.join(b, r + (e or ""))).startswith(b + os.sep)
+                    for r in readings
+                ):
                     return True
         return False
 
@@ -239,13 +266,21 @@ class Sandbox:
         return None
 
 
-def name_feature(toks: list[str]) -> str:
+def name_feature(toks: list[str], seps: Optional[str] = None) -> str:
     """The discriminating input feature used in violation signatures (first match wins).
 
-    Computed on the symbolic name (tokens joined by "/"), so it does not depend on where
-    the sandbox lives.
+    Computed on the symbolic name, so it does not depend on where the sandbox lives.  Names
+    that use a backslash as a separator are classified by what they mean when the backslash
+    is read as a separator, prefixed with "backslash-sep:".
     """
-    sym = "/".join(toks)
+    if (seps and "\\" in seps) or TOK_ABS_BS in toks:
+        norm = [TOK_ABS if t == TOK_ABS_BS else t for t in toks]
+        sym = join_sym(norm, seps).replace("\\", "/")
+        return "backslash-sep:" + _feature(sym, norm)
+    return _feature(join_sym(toks, seps), toks)
+
+
+def _feature(sym: str, toks: list[str]) -> str:
     comps = sym.split("/")
     if "\x00" in sym:
         return "nul"
